@@ -65,10 +65,18 @@ unsafe impl GlobalAlloc for Track {
 #[global_allocator]
 static GLOBAL: Track = Track;
 
+/// Source location of the most recent panic (file:line), for drivers that must tell where a caught panic came from.
+pub static LAST_PANIC: std::sync::Mutex<String> = std::sync::Mutex::new(String::new());
+
 fn main() {
     // panics inside code under test are data; keep the default hook quiet
     let verbose = std::env::var("VH_PANIC_LOG").is_ok();
     std::panic::set_hook(Box::new(move |info| {
+        if let Some(l) = info.location() {
+            if let Ok(mut g) = LAST_PANIC.lock() {
+                *g = format!("{}:{}", l.file(), l.line());
+            }
+        }
         if verbose {
             eprintln!("PANIC: {info}");
         }
